@@ -96,7 +96,7 @@ def generate(seed, tier):
     if rng.random() < 0.7:
         ops.append(gen_gv(rng))
     fw = {k: rng.choice([0, 1, 2]) for k in ("scribble", "freeze", "clock", "reseed", "filters", "printpol", "failed")}
-    w = dict(call=14, gv=3, clean=1)
+    w = dict(call=14, gv=3, clean=1, recall=rng.choice([1, 2, 3]))
     w.update(fw)
     kinds = [k for k, c in w.items() for _ in range(c)]
     favourites = rng.sample(LIGHT, min(len(LIGHT), rng.randint(6, 18)))
@@ -114,7 +114,10 @@ def generate(seed, tier):
             ops.append({"op": "call", "user": rng.randrange(n_users), "fn": name, "args": gen(rng),
                         "in": {t: rng.getrandbits(12) for t in needs},
                         "rng": rng.choice(["seed", "seed", "state"]), "s": rng.getrandbits(31),
-                        "keep": rng.random() < 0.7})
+                        "keep": rng.random() < 0.7, "rscrib": rng.random() < 0.25})
+        elif k == "recall":
+            ops.append({"op": "recall", "k": rng.getrandbits(12), "heavy": rng.random() < 0.5,
+                        "s": rng.choice([None, rng.getrandbits(31)])})
         elif k == "gv":
             ops.append(gen_gv(rng))
         elif k == "clean":
@@ -407,6 +410,7 @@ class Bench:
         self.customs = {}
         self.last_call = "-"
         self.faults_since = []
+        self.history = []        # (op, inputs) of earlier calls, for recall
         self._build_pool(cfg.get("pool_seed", 0))
 
     # -- static shared inputs (harness-made, numpy only + constructors) ------------------------
@@ -595,14 +599,56 @@ class Bench:
                                                f"last call {self.faults_since}", f"{name}")
         return out
 
-    def op_call(self, op):
+    def op_recall(self, op):
+        """Re-issue an earlier call verbatim (same arguments, same input objects) after whatever happened since -
+        typically a gv reconfiguration: a result memoised on too small a key now disagrees with the isolated run."""
+        if not self.history:
+            return "skip"
+        cands = [h for h in self.history if "heavy" in CAT[h[0]["fn"]][3]] if op.get("heavy") else []
+        cands = cands or self.history
+        old, inp = cands[op["k"] % len(cands)]
+        if any(self.dig.get(id(o)) is None for o in inp.values()):
+            return "skip-dropped"
+        new = dict(old, keep=False, rscrib=False)
+        if op.get("s") is not None:
+            new["s"] = op["s"]
+            new["rng"] = "seed"
+        self.rec.probe("recall of an earlier call")
+        return "recall:" + self.op_call(new, inp)
+
+    def op_call(self, op, inp=None):
         name = op["fn"]
         needs, _, _, flags = CAT[name]
-        inp = self._inputs(op["in"])
+        if inp is None:
+            inp = self._inputs(op["in"])
         if inp is None:
             return "skip"
         what = f"user{op['user']} {name}({op['args']})"
         out = self._one_call(name, op["args"], inp, op["rng"], op["s"], what, op.get("keep"), flags)
+        if len(self.history) < 40:
+            self.history.append((op, inp))
+        # the caller scribbles into the *result* and asks again: a returned buffer that is really a cached
+        # internal one would now give a different answer than the isolated execution did
+        scribbled = False
+        if op.get("rscrib") and out[0] == "ok" and "self" not in flags:
+            dig0 = digest_result(out[1], self.L)
+            hit = 0
+            for rb in result_buffers(out[1], self.L):
+                if rb.flags.writeable and rb.size and rb.dtype.kind in "fciub":
+                    flat = rb.reshape(-1)
+                    flat[0] = 1 if rb.dtype.kind in "ub" else flat[0] + 1
+                    flat[-1] = 0
+                    hit += 1
+            if hit:
+                scribbled = True
+                self.rec.fault("scribble_result")
+                self._pool_unchanged(f"{name}: scribble on the result", oracle="C14/alias")
+                again = self._one_call(name, op["args"], inp, op["rng"], op["s"], what + " [again, after the caller "
+                                       "wrote into the previous result]", False, flags)
+                if op["rng"] == "seed" and (again[0] != "ok" or digest_result(again[1], self.L) != dig0):
+                    raise Violation("C14/history-dep", f"{what}: the same call gives a different result after the caller "
+                                                       f"wrote into the previously returned object", f"{name}")
+                out = again
         self.rec.sig(self._grid_sig(), self.last_call + ">" + name, ",".join(sorted(set(self.faults_since))) or "-")
         self.last_call = name
         self.faults_since = []
@@ -615,7 +661,7 @@ class Bench:
         self.rec.ok_ops += 1
         self.rec.probe(f"ok:{name}")
         res = out[1]
-        if op.get("keep") and "self" not in flags:
+        if op.get("keep") and "self" not in flags and not (scribbled and False):
             self._keep(res)
         import matplotlib.pyplot as plt
         if name in ("m.plot", "m.psd"):
